@@ -162,6 +162,12 @@ def pick_insertion(rng, o, d, prefer_knot=0.4, fine=False, mindist=1e-3, small=0
     a, b = U[p], U[n]
     cnt = Counter(U)
     knots = [k for k in interior_distinct(p, U) if cnt[k] < p]
+    # the ends of an UNCLAMPED domain are knots of multiplicity < p + 1 as well: parameters of the domain like any other (inserting
+    # there is how such a shape gets clamped)
+    ends = [k for k in (a, b) if cnt[k] < p and a < b]
+    if ends and rng.random() < 0.3:
+        u = rng.choice(ends)
+        return u, cnt[u], 'on-domain-end-m%d' % cnt[u]
     if knots and rng.random() < prefer_knot:
         u = rng.choice(knots)
         return u, cnt[u], 'on-knot-m%d' % cnt[u]
